@@ -168,3 +168,25 @@ def validate_traces(module, cfg, doc, timeout=900, workers=1, heap='6g', dfs=Fal
     if missing:
         raise MachineryError('no verdict for traces %s\n%s' % (missing[:10], res.out[-1500:]))
     return res, got
+
+
+def run_group(cmd, cwd, timeout):
+    """Run a prover front end (tlapm, apalache-mc) in its own session and kill the whole session afterwards: their back
+    ends (z3, zenon, isabelle/poly) otherwise survive a failed or timed-out run and keep the machine busy for hours."""
+    import signal
+    p = subprocess.Popen(cmd, cwd=cwd, stdout=subprocess.PIPE, stderr=subprocess.STDOUT, text=True, start_new_session=True)
+    try:
+        out, _ = p.communicate(timeout=timeout)
+        rc = p.returncode
+    except subprocess.TimeoutExpired:
+        out, rc = 'TIMEOUT', -9
+    finally:
+        try:
+            os.killpg(p.pid, signal.SIGKILL)
+        except (ProcessLookupError, PermissionError):
+            pass
+        try:
+            p.communicate(timeout=5)
+        except Exception:
+            pass
+    return rc, out or ''
